@@ -46,4 +46,5 @@ def run(ctx, rep):
     rep.run(RI.rule_property_accessors_by_evaluation, ctx, rep, "I12", parts=("sites",))
     rep.run(RI.rule_class_file_named_after_the_class, ctx, rep, "I13")
     rep.run(RI.rule_dispatch_table_by_evaluation, ctx, rep, "I14")
+    rep.run(RI.rule_one_file_per_function_across_blocks, ctx, rep, "I15")
     rep.run(RF.rule_locals_defined, ctx, rep, "U1", packages=("gtwrap/matlab_wrapper",), min_functions=3)
